@@ -16,6 +16,21 @@ from .core import AnalysisError
 from .numeval import Native, _Break, _Continue
 
 
+class ReachedLoop(AnalysisError):
+    """Evaluation reached a loop over the buffer that is not of the per-element form."""
+
+
+class DerivedBuf:
+    """Element-wise image of an abstract buffer (e.g. buf.translate(table)): same length and
+    positions, the generic element's value replaced."""
+
+    def __init__(self, parent, val):
+        self.parent, self.val = parent, val
+
+    def length(self):
+        return self.parent.L
+
+
 class AbsBuf:
     def __init__(self, name="buf", lo_len=0):
         self.name = name
@@ -53,7 +68,29 @@ class AbsBuf:
         raise AnalysisError("engine B: slice of an abstract buffer at line %d" % getattr(node, "lineno", 0))
 
     def store_slice(self, fr, lo, hi, v, node):
+        if lo is None and hi is None and isinstance(v, DerivedBuf) and v.parent is self:
+            self.val = v.val  # whole-buffer replacement by an element-wise image: same length
+            self.events.append(("store", "own", getattr(node, "lineno", 0)))
+            return
         self.events.append(("resize", "slice-store", getattr(node, "lineno", 0)))
+
+    def translate(self, table, node):
+        """Element-wise table lookup; the generic value is split into the runs on which
+        table[x] - x is constant, so the result stays affine on every path."""
+        if not (isinstance(table, list) and len(table) == 256 and all(isinstance(x, int) for x in table)):
+            raise AnalysisError("engine B: translate() with a table that is not a concrete 256-entry table")
+        runs = []
+        for x in range(256):
+            d = table[x] - x
+            if runs and runs[-1][2] == d:
+                runs[-1][1] = x
+            else:
+                runs.append([x, x, d])
+        for lo, hi, d in runs:
+            if B.decide_ge0(Aff.of(self.val) - lo, "translate: value >= %d" % lo) and \
+                    B.decide_ge0(Aff(hi) - Aff.of(self.val), "translate: value <= %d" % hi):
+                return DerivedBuf(self, Aff.of(self.val) + d)
+        raise B.DeadPath()
 
     def getattr(self, fr, attr, node):
         if attr == "reverse":
@@ -61,6 +98,8 @@ class AbsBuf:
                 self.idx = self.L - 1 - self.idx
                 self.events.append(("reverse", getattr(node, "lineno", 0)))
             return Native(rev, "bytearray.reverse")
+        if attr == "translate":
+            return Native(lambda ev, a, k, n: self.translate(a[0], node), "bytearray.translate")
         if attr in ("append", "extend", "insert", "pop", "clear", "remove"):
             def resize(ev, a, k, n):
                 self.events.append(("resize", attr, getattr(node, "lineno", 0)))
@@ -89,7 +128,7 @@ class SymRange:
             raise AnalysisError("engine B: for-else over an abstract buffer")
         # the iteration space must be exactly the buffer's index space
         if B.prove_eq0(Aff.of(self.lo)) is not True or B.prove_eq0(Aff.of(self.hi) - buf.L) is not True:
-            raise AnalysisError("engine B: loop bounds are not range(len(buffer)) at line %d" % st.lineno)
+            raise ReachedLoop("engine B: loop bounds are not range(len(buffer)) at line %d" % st.lineno)
         assigned = _assigned_names(st.body)
         carried = [n for n in assigned if n in fr.env and n != st.target.id]
         loop_id = "loop@%d" % st.lineno
